@@ -10,6 +10,21 @@ from ..core import Machinery
 
 NONE = -9999
 
+META = dict(
+    category="model_checking",
+    technique="TLA+ refinement model (DynArray.tla: implementation-shaped buffer/index model vs Python list) checked "
+              "exhaustively by TLC; every model transition replayed into the real class and every recorded run "
+              "validated by TLC against the list model (TraceDynArray.tla)",
+    text="TLC proves, for every operation sequence up to the stated depth over buckets 2-4 with and without drop-oldest, "
+         "that the implementation-shaped model returns exactly what Python list semantics returns for every read and "
+         "that no list-valid operation raises. The binding to the code is two-way: each transition of that state graph "
+         "is executed on the real DynamicNumpyArray along a shortest witness, and these runs plus long random sequences "
+         "are accepted or rejected by TLC against the list model alone (all int indices, slice bound pairs around the "
+         "length incl. None, get_past_item). Bounded, not a proof for unbounded lengths.",
+    note="Trusted: TLC, the JSON encoder, the 60-line driver that calls the public methods. delete() driven with "
+         "0<=index<len, axis=0; 1-column rows with small integer values; no slice steps.",
+    design_ref="4/C18")
+
 
 def cfg(bucket, drop, maxlen, depth, multi, writes, export):
     inv = ["VisibleIsList", "LenOK", "NoValidOpRaises", "CapacityOK", "GetItemOK", "GetSliceOK", "PastOK", "DropBound"]
